@@ -310,12 +310,37 @@ func (c *fillCtx) stmtPaths(s ast.Stmt) []fillPath {
 		return fillUnit
 	case *ast.EmptyStmt:
 		return fillUnit
+	case *ast.SwitchStmt:
+		if !c.hasReader(t, "") {
+			return fillUnit
+		}
+		if t.Init != nil || t.Tag == nil || c.hasReader(t.Tag, "") {
+			c.fail("reader call inside unsupported switch: %s", oneLine(c.fset, s))
+			return fillUnit
+		}
+		tag := oneLine(c.fset, t.Tag)
+		var branches []fillPath
+		for _, cl := range t.Body.List {
+			cc := cl.(*ast.CaseClause)
+			var names []string
+			for _, e := range cc.List {
+				if c.hasReader(e, "") {
+					c.fail("reader call inside a case expression: %s", oneLine(c.fset, e))
+				}
+				names = append(names, oneLine(c.fset, e))
+			}
+			name := "default"
+			if len(names) > 0 {
+				name = strings.Join(names, ",")
+			}
+			branches = append(branches, withCond(c.blockPaths(cc.Body), tag+"="+name)...)
+		}
+		return branches
 	case *ast.ForStmt:
 		if !c.hasReader(t, "") {
 			return fillUnit
 		}
-		if !c.allowLoops || t.Init != nil && c.hasReader(t.Init, "") || t.Cond != nil && c.hasReader(t.Cond, "") ||
-			t.Post != nil && c.hasReader(t.Post, "") {
+		if !c.allowLoops || t.Init != nil && c.hasReader(t.Init, "") || t.Post != nil && c.hasReader(t.Post, "") {
 			c.fail("reader call inside unsupported loop: %s", oneLine(c.fset, s))
 			return fillUnit
 		}
@@ -473,6 +498,48 @@ func genFills(repo string) ([]byte, error) {
 			return nil, c.err
 		}
 		writeShape(fn+"Loop", fmt.Sprintf("%s: the body of `for %s`", fn, condStr(fset, loops[0])), body)
+	}
+	// ---- the level-0 sequence: decodeHeader, decodeImageStream (+ its transform loop), readTransform
+	for _, extra := range []string{"internal/lossless/decode.go", "internal/lossless/decode_transform.go"} {
+		ef, err := parser.ParseFile(fset, filepath.Join(repo, extra), nil, 0)
+		if err != nil {
+			return nil, err
+		}
+		for _, d := range ef.Decls {
+			if fd, ok := d.(*ast.FuncDecl); ok && fd.Recv != nil {
+				c.methods[fd.Name.Name] = fd
+			}
+		}
+	}
+	c.memo = map[string]bool{}
+	for _, fn := range []string{"decodeHeader", "decodeImageStream", "readTransform"} {
+		md := c.methods[fn]
+		if md == nil || md.Body == nil {
+			return nil, fmt.Errorf("%s not found", fn)
+		}
+		c.allowLoops, c.loops = true, nil
+		paths := c.blockPaths(md.Body.List)
+		loops := c.loops
+		c.allowLoops = false
+		if c.err != nil {
+			return nil, c.err
+		}
+		writeShape(fn, fmt.Sprintf("%s: per path the ordered bit-reader calls; `<loop` = a loop with reader calls (its condition and body: %sLoop), `<m` = a call of the Decoder method m", fn, fn), paths)
+		if len(loops) > 1 {
+			return nil, fmt.Errorf("%s: more than one loop with reader calls", fn)
+		}
+		if len(loops) == 1 {
+			c.loops = nil
+			cond := fillUnit
+			if loops[0].Cond != nil {
+				cond = c.exprPaths(loops[0].Cond)
+			}
+			body := fillSeq(cond, c.blockPaths(loops[0].Body.List))
+			if c.err != nil {
+				return nil, c.err
+			}
+			writeShape(fn+"Loop", fmt.Sprintf("%s: condition and body of `for %s`", fn, condStr(fset, loops[0])), body)
+		}
 	}
 	b.WriteString("end Generated.Fills\n")
 	return b.Bytes(), nil
